@@ -42,7 +42,7 @@ func Profile() *world.Profile {
 		PanicPm: 450, MissingPm: 150, BadStatus: 80, WFaultPm: 100, HookPanicPm: 50, RHPanicPm: 40, CancelPm: 40, DeadlinePm: 40, FaultFree: 100,
 		MinTasks: 1, MaxTasks: 4, MinReqs: 2, MaxReqs: 6,
 		HotPm: 250, HostilePm: 100,
-		Methods: []string{"GET", "HEAD"}, MethodW: []int{5, 1},
+		Methods: []string{"GET", "HEAD", "POST"}, MethodW: []int{5, 2, 1},
 		KnownChain: true,
 	}
 	p.Shapes = make([]int, 24)
